@@ -103,6 +103,11 @@ def check(chk):
     _scores_identity(chk)
     _norms(chk)
     _stage_inverse(chk)
+    # queries leave the stored decomposition alone (shared with C14): an accessor that rescales the stored arrays in place
+    # changes what every later scores() / components() / transform() returns
+    from . import c14 as _c14q
+    from .c01 import _Relabel as _RLq
+    _c14q._query_mutates(_RLq(chk, "HIST.query_mutates", "MIRROR.query_mutates"))
     # the fitted scaling arrays survive a serialisation round trip (compute() and load() rebuild the model from the
     # serialised tree): shared with C13's naming rule
     from . import c13 as _c13
